@@ -17,7 +17,11 @@ two-line wrapper that #includes /repo's fff_gen_stats.c is compiled per run):
                 mean, sign, wilcoxon, student (tolerance), antisymmetry
   pvalues       permutation_test.pvalue / calibrate on the real Python (installed
                 onesample/twosample glue: stale fallback) - finding p == 0
-  python stats  estimate_mean / estimate_varatio re-computed with exact rationals
+  python stats  estimate_mean / estimate_varatio re-computed with exact rationals (sd classes: positive, zeros = zero-weight
+                subjects, negative, scalar, 1-D) + Coq model of estimate_mean
+  rfx defs      all 9 RFX statistics vs definitions on dyadic / decimal / tied data, baselines at, inside and one ulp off the median
+  glm twolevel  fff_glm_twolevel EM vs defining recursion and Coq model: designs with/without constant, projected pseudo-inverses,
+                continued runs on one EM object; two-sample student_mfx likelihood ratio
   mixed effects MixedEffectsModel.fit vs the defining EM recursion (exact rationals, 1e-10) and vs the
                 Coq model (ModelMfx.v); history independence (fit A then fit B on ONE object ==
                 fresh fit of B: same shape, same sample, other n_tests, two earlier fits);
@@ -683,35 +687,64 @@ def sec_python_stats(ck):
         ck.note("algorithms.statistics.onesample not importable: %s" % e)
         return
     rng = ck.rng("pystats")
-    for it in range(ck.n(40, 200)):
-        n = int(rng.integers(2, 12))
+    terms, metas = [], []
+    for it in range(ck.n(80, 400)):
+        n = int(rng.integers(3, 12))
         p = int(rng.integers(1, 4))
         Y = rng.integers(-8, 9, size=(n, p)).astype(float)
         sd = 2.0 ** rng.integers(-1, 2, size=(n, p)).astype(float)      # 1/sd^2 exact
-        out = OSM.estimate_mean(Y.copy(), sd.copy())
-        ck.count(("estimate_mean", it), bucket="estimate_mean")
+        sdclass = ("positive", "some-zero", "some-negative", "scalar", "1-D")[it % 5]
+        if sdclass == "some-zero":                                       # zero weight subjects (pos_recipr(0) = 0)
+            for j in range(p):
+                idx = rng.choice(n, size=int(rng.integers(1, n - 1)), replace=False)
+                sd[idx, j] = 0.0
+        elif sdclass == "some-negative":                                 # sd enters squared
+            sd = sd * rng.choice([-1.0, 1.0], size=sd.shape)
+        Yarg, sdarg = Y.copy(), sd.copy()
+        if sdclass == "scalar":
+            sd[:] = float(2.0 ** rng.integers(-1, 2))
+            sdarg = np.array(sd[0, 0])
+        elif sdclass == "1-D":
+            Yarg, sdarg = Y[:, 0].copy(), sd[:, 0].copy()
+            p = 1
+        out = OSM.estimate_mean(Yarg, sdarg)
+        ck.count(("estimate_mean", it), bucket="estimate_mean:sd-%s" % sdclass)
         for j in range(p):
-            W = [1 / frac(s) ** 2 for s in sd[:, j]]
+            W = [(1 / frac(s) ** 2 if frac(s) ** 2 > 0 else Fraction(0)) for s in sd[:, j]]
             y = [frac(v) for v in Y[:, j]]
             eff = sum(a * w for a, w in zip(y, W)) / sum(W)
             scale2 = sum(w * (a - eff) ** 2 for a, w in zip(y, W)) / (n - 1)
             var_total = scale2 / sum(W)
             got = float(np.asarray(out["effect"]).reshape(-1)[j])
-            if abs(got - float(eff)) > 1e-12 * max(1.0, abs(float(eff))):
-                ck.fail("estimate_mean/effect-not-weighted-mean", "estimate_mean effect %r, weighted mean %s" % (got, eff),
-                        {"Y": Y[:, j].tolist(), "sd": sd[:, j].tolist(), "out": got})
+            gscale = float(np.asarray(out["scale"]).reshape(-1)[j])
             gsd = float(np.asarray(out["sd"]).reshape(-1)[j])
-            if abs(gsd - math.sqrt(float(var_total))) > 1e-12 * max(1.0, gsd):
-                ck.fail("estimate_mean/sd-not-definition", "estimate_mean sd %r, sqrt(scale^2/sum W) = %r" % (gsd, math.sqrt(float(var_total))),
-                        {"Y": Y[:, j].tolist(), "sd": sd[:, j].tolist(), "out": gsd})
             gt = float(np.asarray(out["t"]).reshape(-1)[j])
+            rep = {"Y": Y[:, j].tolist(), "sd": sd[:, j].tolist(), "sd_class": sdclass,
+                   "out": {"effect": got, "scale": gscale, "sd": gsd, "t": gt},
+                   "expected": {"effect": float(eff), "scale": math.sqrt(float(scale2)), "sd": math.sqrt(float(var_total))}}
+            if abs(got - float(eff)) > 1e-12 * max(1.0, abs(float(eff))):
+                ck.fail("estimate_mean/effect-not-weighted-mean", "estimate_mean effect %r, weighted mean %s (sd %s)" % (got, eff, sdclass), rep)
+            if abs(gscale - math.sqrt(float(scale2))) > 1e-12 * max(1.0, gscale):
+                ck.fail("estimate_mean/scale-not-definition/sd-%s" % ("with-zero-weight" if sdclass == "some-zero" else "positive"),
+                        "estimate_mean scale %r, sqrt(sum W (Y-effect)^2 / (nsubject-1)) = %r (sd %s)" % (gscale, math.sqrt(float(scale2)), sdclass), rep)
+            if abs(gsd - math.sqrt(float(var_total))) > 1e-12 * max(1.0, gsd):
+                ck.fail("estimate_mean/sd-not-definition/sd-%s" % ("with-zero-weight" if sdclass == "some-zero" else "positive"),
+                        "estimate_mean sd %r, sqrt(scale^2/sum W) = %r (sd %s)" % (gsd, math.sqrt(float(var_total)), sdclass), rep)
             if var_total > 0 and abs(gt - float(eff) / math.sqrt(float(var_total))) > 1e-10 * max(1.0, abs(gt)):
-                ck.fail("estimate_mean/t-not-definition", "estimate_mean t %r" % gt, {"Y": Y[:, j].tolist(), "sd": sd[:, j].tolist(), "out": gt})
+                ck.fail("estimate_mean/t-not-definition", "estimate_mean t %r, effect/sd = %r (sd %s)" % (gt, float(eff) / math.sqrt(float(var_total)), sdclass), rep)
+            if n <= 7 and j == 0:
+                terms.append("(qclose (em_effect %s %s) %s && qclose (em_scale2 %s %s) %s && qclose (em_var_total %s %s) %s)%%bool"
+                             % (cql(Y[:, j].tolist()), cql(sd[:, j].tolist()), cq(got), cql(Y[:, j].tolist()), cql(sd[:, j].tolist()), cq(gscale * gscale),
+                                cql(Y[:, j].tolist()), cql(sd[:, j].tolist()), cq(gsd * gsd)))
+                metas.append(("estimate_mean", Y[:, j].tolist(), sd[:, j].tolist()))
         # antisymmetry: negating the data negates effect and t
-        out2 = OSM.estimate_mean(-Y, sd.copy())
+        out2 = OSM.estimate_mean(-Yarg, sdarg)
         if not np.allclose(np.asarray(out2["effect"]), -np.asarray(out["effect"]), rtol=0, atol=1e-12):
             ck.fail("estimate_mean/not-antisymmetric", "estimate_mean(-Y) effect != -estimate_mean(Y) effect", {"Y": Y.tolist(), "sd": sd.tolist()})
-    ck.section("python_stats", note="estimate_mean re-computed with exact rationals")
+    run_terms(ck, "estimate_mean", terms, metas,
+              lambda t: "(Qred (em_effect %s %s), Qred (em_scale2 %s %s), Qred (em_var_total %s %s))" % ((cql(t[1]), cql(t[2])) * 3), hdr=HDR_MFX)
+    ck.section("python_stats", model_cases=len(terms), note="estimate_mean re-computed with exact rationals and by the Coq model; sd classes: positive, with zeros "
+               "(zero-weight subjects), negative entries, scalar, 1-D")
 
 
 # ---------------------------------------------------------------------------- strided vectors / axis application / MFX statistics
@@ -1087,6 +1120,354 @@ def sec_mfx_stats(ck, L):
     ck.section("mfx_stats", cases=N, model_cases=len(terms))
 
 
+# ---------------------------------------------------------------------------- RFX definitions on wide input classes
+def lib_median(xs):
+    s = sorted(xs)
+    n = len(s)
+    return s[n // 2] if n % 2 else (s[n // 2 - 1] + s[n // 2]) / 2
+
+
+def signed_root(sign, n, ratio):
+    """sign * sqrt(2 n log(ratio)) for an exact ratio >= 1"""
+    if ratio == 1:
+        return 0.0
+    lg = math.log1p(float(ratio - 1)) if ratio < 2 else math.log(float(ratio))
+    return sign * math.sqrt(2 * n * lg)
+
+
+def ref_rfx(name, xs, base):
+    """Definitions (library normalisations) on the exact values of the doubles; returns float, +-inf or None (undefined)."""
+    x = [frac(v) for v in xs]
+    b = frac(base)
+    n = len(x)
+    if name == "median":
+        return float(lib_median(x) - b)
+    if name in ("laplace", "tukey"):
+        med = lib_median(x)
+        sg = sgn(med - b)
+        if sg == 0:
+            return 0.0
+        if name == "laplace":
+            s_ = sum(abs(v - med) for v in x) / n
+            s0 = sum(abs(v - b) for v in x) / n
+        else:
+            s_ = lib_median([abs(v - med) for v in x])
+            s0 = lib_median([abs(v - b) for v in x])
+        s0 = max(s0, s_)
+        if s_ == 0:
+            return sg * math.inf
+        return signed_root(sg, n, s0 / s_)
+    if name == "grubb":
+        m = sum(x) / n
+        ssd = sum((v - m) ** 2 for v in x)
+        if ssd == 0:
+            return None
+        return max(abs(float(v - m)) for v in x) / math.sqrt(float(ssd / n))
+    if name == "student":
+        m = sum(x) / n
+        ssd = sum((v - m) ** 2 for v in x)
+        if m == b:
+            return 0.0
+        if ssd == 0:
+            return sgn(m - b) * math.inf
+        return math.sqrt(n - 1) * float(m - b) / math.sqrt(float(ssd / n))
+    return float(ref_os(name, xs, base))
+
+
+def sec_rfx_definitions(ck, L):
+    """Every RFX statistic against its definition on wide input classes: dyadic, decimal (non-dyadic) and tied data,
+    baselines at 0 / random / equal to the median / strictly inside the median interval of an even sample /
+    equal to a data point / one ulp off the median."""
+    rng = ck.rng("rfxdef")
+    terms, metas = [], []
+    N = ck.n(240, 1200)
+    for it in range(N):
+        n = int(rng.integers(2, 13)) if it % 3 else int(rng.integers(2, 41))
+        if it % 4 == 1:
+            n += n % 2                                        # even sizes: the median interval exists
+        kind = ("dyadic", "decimal", "ties")[it % 3]
+        if kind == "dyadic":
+            xs = (rng.integers(-40, 41, size=n) / 8.0).tolist()
+        elif kind == "decimal":
+            xs = np.round(rng.normal(0.3, 1.0, size=n), 2).tolist()
+        else:
+            xs = (rng.integers(-3, 4, size=n) / 2.0).tolist()
+        srt = sorted(xs)
+        med = float(lib_median([frac(v) for v in xs]))
+        bk = it % 7
+        if bk == 3 and not (n % 2 == 0 and srt[n // 2 - 1] < srt[n // 2]):
+            bk = 6
+        if bk == 0:
+            base = 0.0
+        elif bk == 1:
+            base = float(rng.integers(-8, 9)) / 4
+        elif bk == 2:
+            base = med
+        elif bk == 3:
+            lo, hi = srt[n // 2 - 1], srt[n // 2]
+            base = lo + (hi - lo) * float(rng.integers(1, 16)) / 16 * 0.999
+            if kind == "decimal" and lo < round(base, 2) < hi:
+                base = round(base, 2)
+        elif bk == 4:
+            base = xs[int(rng.integers(0, n))]
+        elif bk == 5:
+            base = float(np.nextafter(med, med + (1 if rng.random() < 0.5 else -1)))
+        else:
+            base = float(np.round(rng.normal(0, 1), 2))
+        xa = np.array(xs, dtype=float)
+        fb = frac(base)
+        for name, flag in OS_RFX.items():
+            got = os_eval(L, flag, xa, base)
+            ck.count(("rfxdef", name, it), bucket="rfxdef:%s" % kind)
+            if name == "elr":
+                ref = None
+                ok = got == got                                # Newton solver: only "never NaN" is asserted here
+            else:
+                if name == "wilcoxon":
+                    ab = [abs(frac(v) - fb) for v in xs if frac(v) != fb]
+                    fl = [abs(v - base) for v in xs if frac(v) != fb]       # the residuals as the C forms them (rounded x - base)
+                    if len(set(ab)) != len(ab) or len(set(fl)) != len(fl) or \
+                            sorted(range(len(ab)), key=lambda i: ab[i]) != sorted(range(len(fl)), key=lambda i: fl[i]):
+                        continue                              # tied |x - base| (exactly or after rounding): qsort order unspecified
+                ref = ref_rfx(name, xs, base)
+                if ref is None:
+                    continue
+                if math.isinf(ref):
+                    ok = got == ref
+                elif name in ("laplace", "tukey"):
+                    ok = got == got and abs(got - ref) <= 1e-6 + 1e-9 * abs(ref)
+                else:
+                    ok = got == got and abs(got - ref) <= 1e-12 + 1e-10 * abs(ref)
+            if not ok:
+                feature = "base-inside-median-interval" if bk == 3 else ("base-at-median" if bk in (2, 5) else "general")
+                sig = "onesample/%s-not-definition" % name
+                if name in ("laplace", "tukey", "median"):
+                    sig += "/" + feature
+                ck.fail(sig, "one-sample '%s'(x, base=%r) = %r; definition gives %r (n=%d, %s data)" % (name, base, got, ref, n, kind),
+                        {"stat": name, "x": xs, "base": base, "out": got, "expected": ref, "data_class": kind, "baseline_class": feature})
+            if name == "median" and kind != "decimal" and n <= 12 and (base * 1024) % 1 == 0 and abs(base) < 64:
+                terms.append("Qeq_bool (lib_median %s - %s)%%Q %s" % (cql(xs), cq(base), cq(got)))
+                metas.append(("median", xs, base, got))
+    run_terms(ck, "rfxdef", terms, metas, lambda t: "Qred (lib_median %s)" % cql(t[1]), hdr=HDR_MFX)
+    ck.section("rfx_definitions", cases=N, model_cases=len(terms))
+
+
+# ---------------------------------------------------------------------------- fff_glm_twolevel EM
+class FM(ctypes.Structure):
+    _fields_ = [("size1", ctypes.c_size_t), ("size2", ctypes.c_size_t), ("tda", ctypes.c_size_t),
+                ("data", ctypes.POINTER(ctypes.c_double)), ("owner", ctypes.c_int)]
+
+
+class GlmEM(ctypes.Structure):
+    _fields_ = [("n", ctypes.c_size_t), ("p", ctypes.c_size_t), ("b", ctypes.POINTER(FV)), ("s2", ctypes.c_double),
+                ("z", ctypes.POINTER(FV)), ("vz", ctypes.POINTER(FV)), ("Qz", ctypes.POINTER(FV)), ("niter", ctypes.c_uint)]
+
+
+def mview(a):
+    a = np.ascontiguousarray(a, dtype=float)
+    m = FM(a.shape[0], a.shape[1], a.shape[1], a.ctypes.data_as(ctypes.POINTER(ctypes.c_double)), 0)
+    m._buf = a
+    return m
+
+
+def load_glm(L):
+    PV, PM, PE = ctypes.POINTER(FV), ctypes.POINTER(FM), ctypes.POINTER(GlmEM)
+    L.fff_glm_twolevel_EM_new.argtypes = [ctypes.c_size_t, ctypes.c_size_t]
+    L.fff_glm_twolevel_EM_new.restype = PE
+    L.fff_glm_twolevel_EM_delete.argtypes = [PE]
+    L.fff_glm_twolevel_EM_delete.restype = None
+    L.fff_glm_twolevel_EM_init.argtypes = [PE]
+    L.fff_glm_twolevel_EM_init.restype = None
+    L.fff_glm_twolevel_EM_run.argtypes = [PE, PV, PV, PM, PM, ctypes.c_uint]
+    L.fff_glm_twolevel_EM_run.restype = None
+    L.fff_glm_twolevel_log_likelihood.argtypes = [PV, PV, PM, PV, ctypes.c_double, PV]
+    L.fff_glm_twolevel_log_likelihood.restype = ctypes.c_double
+
+
+def finv(A):
+    k = len(A)
+    M = [list(A[i]) + [Fraction(int(i == j)) for j in range(k)] for i in range(k)]
+    for c in range(k):
+        piv = next(i for i in range(c, k) if M[i][c] != 0)
+        M[c], M[piv] = M[piv], M[c]
+        M[c] = [v / M[c][c] for v in M[c]]
+        for i in range(k):
+            if i != c and M[i][c] != 0:
+                M[i] = [a - M[i][c] * b for a, b in zip(M[i], M[c])]
+    return [r[k:] for r in M]
+
+
+def fmm(A, B):
+    return [[sum(a * b for a, b in zip(row, col)) for col in zip(*B)] for row in A]
+
+
+def projected_pinv(X, c=None):
+    """PpiX = P (X'X)^-1 X' with P = I - A c'(c A c')^-1 c, A = (X'X)^-1 (header of fff_glm_twolevel.c); c: one contrast row or None."""
+    Xt = [list(r) for r in zip(*X)]
+    A = finv(fmm(Xt, X))
+    p = len(A)
+    P = [[Fraction(int(i == j)) for j in range(p)] for i in range(p)]
+    if c is not None:
+        Ac = [sum(A[i][j] * c[j] for j in range(p)) for i in range(p)]
+        cAc = sum(c[i] * Ac[i] for i in range(p))
+        P = [[P[i][j] - Ac[i] * c[j] / cAc for j in range(p)] for i in range(p)]
+    return fmm(fmm(P, A), Xt)
+
+
+TINY = 1e-50
+
+
+def ref_glm2(X, P, y, vy, niter, state=None, exact=False):
+    """Defining recursion of fff_glm_twolevel_EM_run (b = 0, s2 = +inf at init); state = (b, s2) to continue a run."""
+    n = len(y)
+    tiny = Fraction(1, 10 ** 50) if exact else TINY
+    b, s2 = state if state is not None else ([0 * y[0]] * len(P), None)
+    for _ in range(niter):
+        f = [sum(a * c for a, c in zip(row, b)) for row in X]
+        w2 = 0 if s2 is None else 1 / max(s2, tiny)
+        vz = [1 / (1 / max(v, tiny) + w2) for v in vy]
+        z = [vzi * (yi / max(v, tiny) + w2 * fi) for vzi, yi, v, fi in zip(vz, y, vy, f)]
+        b = [sum(a * c for a, c in zip(row, z)) for row in P]
+        r = [sum(a * c for a, c in zip(row, b)) - zi for row, zi in zip(X, z)]
+        s2 = (sum(ri * ri for ri in r) + sum(vz)) / n
+    return b, s2
+
+
+def ref_glm2_ll(X, y, vy, b, s2):
+    ll = 0.0
+    for row, yi, v in zip(X, y, vy):
+        w = max(float(v) + float(s2), TINY)
+        ri = float(yi) - sum(float(a) * float(c) for a, c in zip(row, b))
+        ll += math.log(w) + ri * ri / w
+    return -0.5 * ll
+
+
+def c_glm2(L, X, y, vy, runs):
+    """EM_init, then EM_run for each (PpiX, niter) in `runs` on ONE em object; returns [(b, s2, loglik)] after each run."""
+    n, p = X.shape
+    em = L.fff_glm_twolevel_EM_new(n, p)
+    L.fff_glm_twolevel_EM_init(em)
+    out = []
+    Xm = mview(X)
+    tmp = np.zeros(n)
+    for (Pk, k) in runs:
+        Pm = mview(Pk)
+        L.fff_glm_twolevel_EM_run(em, ctypes.byref(vview(y)), ctypes.byref(vview(vy)), ctypes.byref(Xm), ctypes.byref(Pm), k)
+        bv = em.contents.b.contents
+        b = [float(bv.data[i * bv.stride]) for i in range(p)]
+        s2 = float(em.contents.s2)
+        ll = float(L.fff_glm_twolevel_log_likelihood(ctypes.byref(vview(y)), ctypes.byref(vview(vy)), ctypes.byref(Xm), em.contents.b, s2, ctypes.byref(vview(tmp))))
+        out.append((b, s2, ll))
+    L.fff_glm_twolevel_EM_delete(em)
+    return out
+
+
+def sec_glm_twolevel(ck, L):
+    load_glm(L)
+    rng = ck.rng("glm2")
+    terms, metas = [], []
+    designs = ("intercept", "intercept+group", "covariate-no-intercept", "two-covariates-no-intercept",
+               "intercept+covariate/contrast-on-intercept", "intercept+group/contrast-on-group")
+    ncase = 0
+    for n in ([4, 5, 8] if not ck.thorough() else [4, 5, 6, 8, 12, 20]):
+        for dname in designs:
+            cov = (np.arange(n, dtype=float) - (n - 1) / 2.0) / 2 + (0.75 if "no-intercept" in dname else 0.0)
+            grp = (np.arange(n) < n // 2).astype(float)
+            if dname == "intercept":
+                X, c = np.ones((n, 1)), None
+            elif dname.startswith("intercept+group"):
+                X = np.column_stack((np.ones(n), grp))
+                c = [Fraction(0), Fraction(1)] if "contrast" in dname else None
+            elif dname == "covariate-no-intercept":
+                X, c = cov[:, None], None
+            elif dname == "two-covariates-no-intercept":
+                X, c = np.column_stack((cov, grp + 0.5)), None
+            else:
+                X = np.column_stack((np.ones(n), cov))
+                c = [Fraction(1), Fraction(0)]
+            no_const = ("no-intercept" in dname) or ("contrast-on-intercept" in dname)
+            Xf = [[frac(v) for v in r] for r in X.tolist()]
+            Pf = projected_pinv(Xf, c)
+            Pn = np.array([[float(v) for v in r] for r in Pf])
+            for niter in ([1, 2, 3, 5] if not ck.thorough() else [1, 2, 3, 4, 6, 9]):
+                y = rng.integers(-12, 13, size=n).astype(float) / 4
+                y[0] += 1.25
+                vy = rng.integers(1, 13, size=n).astype(float) / 8
+                strided = (ncase % 3 == 2)
+                ya, va = y, vy
+                if strided:                                   # strided observation / variance vectors
+                    blk = np.zeros((n, 3))
+                    blk[:, 1] = y
+                    ya = blk[:, 1]
+                    blv = np.ones((n, 2))
+                    blv[:, 0] = vy
+                    va = blv[:, 0]
+                ncase += 1
+                ck.count(("glm2", dname, n, niter, ncase), bucket="glm_twolevel:%s" % dname)
+                (b, s2, ll), = c_glm2(L, X, ya, va, [(Pn, niter)])
+                if niter <= 2:
+                    rb, rs2 = ref_glm2(Xf, Pf, [frac(v) for v in y], [frac(v) for v in vy], niter, exact=True)
+                else:
+                    rb, rs2 = ref_glm2(X.tolist(), Pn.tolist(), y.tolist(), vy.tolist(), niter)
+                rbf = [float(v) for v in rb]
+                rll = ref_glm2_ll(X.tolist(), y.tolist(), vy.tolist(), rbf, float(rs2))
+                if not (close(b, rbf) and close(s2, float(rs2)) and close(ll, rll, 1e-9)):
+                    ck.fail("glm_twolevel/em-not-definition/%s" % ("design-without-constant" if no_const else "design-with-constant"),
+                            "fff_glm_twolevel_EM_run(%s, n=%d, niter=%d)%s: b=%s s2=%r loglik=%r; defining recursion: b=%s s2=%r loglik=%r"
+                            % (dname, n, niter, " on strided y/vy" if strided else "", b, s2, ll, rbf, float(rs2), rll),
+                            {"design": dname, "X": X.tolist(), "PpiX": Pn.tolist(), "y": y.tolist(), "vy": vy.tolist(), "niter": niter,
+                             "out": {"b": b, "s2": s2, "loglik": ll}, "expected": {"b": rbf, "s2": float(rs2), "loglik": rll}})
+                if n <= 5 and niter <= 2:
+                    terms.append("(let r := glm2_run %s %s %s %s %s in qclose (glm2_s2 r) %s && qlclose (g_b r) %s)%%bool"
+                                 % (cqmat(Pf), cqmat(Xf), cnat(niter), cql(y.tolist()), cql(vy.tolist()), cq(s2), cql(b)))
+                    metas.append(("glm2", Pf, Xf, niter, y.tolist(), vy.tolist()))
+                # two runs on ONE em object (constrained then unconstrained, as the two-sample student_mfx does)
+                if c is not None:
+                    Pu = np.array([[float(v) for v in r] for r in projected_pinv(Xf, None)])
+                    runs = c_glm2(L, X, ya, va, [(Pn, niter), (Pu, niter)])
+                    st1 = ref_glm2(X.tolist(), Pn.tolist(), y.tolist(), vy.tolist(), niter)
+                    st2 = ref_glm2(X.tolist(), Pu.tolist(), y.tolist(), vy.tolist(), niter, state=st1)
+                    ck.count(("glm2-seq", dname, n, niter, ncase), bucket="glm_twolevel:two-runs-one-object")
+                    if not (close(runs[1][0], st2[0]) and close(runs[1][1], st2[1])):
+                        ck.fail("glm_twolevel/em-continued-run-not-definition",
+                                "EM_run(constrained PpiX, %d) then EM_run(unconstrained, %d) on one EM object (%s): b=%s s2=%r; recursion continued from the first run: b=%s s2=%r"
+                                % (niter, niter, dname, runs[1][0], runs[1][1], st2[0], st2[1]),
+                                {"design": dname, "X": X.tolist(), "sequence": [{"PpiX": Pn.tolist(), "niter": niter}, {"PpiX": Pu.tolist(), "niter": niter}],
+                                 "y": y.tolist(), "vy": vy.tolist(), "out": list(runs[1][:2]), "expected": [st2[0], st2[1]]})
+    # two-sample student_mfx = sign(b1) sqrt(2 (ll - ll0)) from the constrained / continued unconstrained EM
+    for it in range(ck.n(30, 150)):
+        n1 = int(rng.integers(2, 8))
+        n2 = int(rng.integers(2, 8))
+        n = n1 + n2
+        niter = int(rng.integers(1, 6))
+        x = rng.integers(-12, 13, size=n).astype(float) / 4
+        x[0] += 0.75
+        vx = rng.integers(1, 13, size=n).astype(float) / 8
+        st = L.fff_twosample_stat_mfx_new(n1, n2, 12)
+        st.contents.niter = niter
+        got = float(L.fff_twosample_stat_mfx_eval(st, ctypes.byref(vview(x)), ctypes.byref(vview(vx))))
+        L.fff_twosample_stat_mfx_delete(st)
+        g = [1.0] * n1 + [0.0] * n2
+        X = [[1.0, gi] for gi in g]
+        PX = [[0.0] * n1 + [1.0 / n2] * n2, [1.0 / n1] * n1 + [-1.0 / n2] * n2]
+        PPX = [[1.0 / n] * n, [0.0] * n]
+        s0 = ref_glm2(X, PPX, x.tolist(), vx.tolist(), niter)
+        ll0 = ref_glm2_ll(X, x.tolist(), vx.tolist(), s0[0], s0[1])
+        s1 = ref_glm2(X, PX, x.tolist(), vx.tolist(), niter, state=s0)
+        ll1 = ref_glm2_ll(X, x.tolist(), vx.tolist(), s1[0], s1[1])
+        ref = sgn(s1[0][1]) * math.sqrt(max(2.0 * (ll1 - ll0), 0.0))
+        ck.count(("ts-mfx", it), bucket="twosample:student_mfx")
+        if not (abs(got - ref) <= 1e-8 * max(1.0, abs(ref))):
+            ck.fail("twosample/student_mfx-not-likelihood-ratio", "two-sample student_mfx(n1=%d, n2=%d, niter=%d) = %r; sign(b1) sqrt(2 (ll - ll0)) = %r" % (n1, n2, niter, got, ref),
+                    {"n1": n1, "n2": n2, "niter": niter, "x": x.tolist(), "vx": vx.tolist(), "out": got, "expected": ref})
+
+    def show(t):
+        return "(let r := glm2_run %s %s %s %s %s in (glm2_s2 r, g_b r))" % (cqmat(t[1]), cqmat(t[2]), cnat(t[3]), cql(t[4]), cql(t[5]))
+    run_terms(ck, "glm_twolevel", terms, metas, show, hdr=HDR_MFX, shard=6)
+    ck.section("glm_twolevel", em_cases=ncase, model_cases=len(terms),
+               note="designs with and without the constant in their column space, projected pseudo-inverses (contrast constraints), strided y/vy, continued runs on one EM object")
+
+
 # ---------------------------------------------------------------------------- mixed effects (Python)
 HDR_MFX = ("From Coq Require Import List Bool ZArith NArith QArith Qabs.\n"
            "From NV.Lib Require Import Harness.\n"
@@ -1427,6 +1808,8 @@ def run(ck):
     load_mfx(L)
     sec_layout(ck, L)
     sec_mfx_stats(ck, L)
+    sec_rfx_definitions(ck, L)
+    sec_glm_twolevel(ck, L)
     sec_pvalues(ck)
     sec_python_stats(ck)
     sec_varatio(ck)
